@@ -191,3 +191,17 @@ Theorem C04_every_script_without_bare_wait_finishes : forall cfg progs sched s p
   exists ss, nth_error (scripts (run cfg progs (init progs) sched)) s = Some ss /\ is_done ss = true.
 Proof. exact every_script_without_bare_wait_finishes. Qed.
 Print Assumptions C04_every_script_without_bare_wait_finishes.
+
+(* A foreground exec of a bare name is decided by the script's own PATH; with PATH replaced by a
+   directory below $WORK no program of the host can be run, whatever the host has installed. *)
+Theorem C04_exec_uses_script_path : forall cfg s c ss neg prog,
+  exec_action cfg s c ss (AExec neg prog)
+  = (c, ss, if Bool.eqb (look cfg s (tr ss) (path_value (senv ss)) prog) neg then OFail else OCont).
+Proof. exact exec_outcome. Qed.
+Print Assumptions C04_exec_uses_script_path.
+
+Theorem C04_narrowed_path_hides_host_programs : forall cfg cfg' s t sub prog,
+  look cfg s t (VOwnPath s sub None) prog = is_exec t (sub ++ [prog]) /\
+  look cfg s t (VOwnPath s sub None) prog = look cfg' s t (VOwnPath s sub None) prog.
+Proof. exact narrowed_path_hides_host. Qed.
+Print Assumptions C04_narrowed_path_hides_host_programs.
